@@ -1465,6 +1465,14 @@ func (t *table) gc(now bigtable.Timestamp, done <-chan struct{}, force bool) {
 
 	i := 0
 	t.rows.Ascend(func(r *btpb.Row) bool {
+		// The table lock is given up every 100 rows and the iteration may run on a snapshot taken when the pass
+		// started, so r can be stale: collect the row's current content, or a write acknowledged in the meantime
+		// would be overwritten (and a deleted row resurrected) by the write-back below.
+		if i >= 100 {
+			if r = t.rows.Get(r.Key); r == nil {
+				return true
+			}
+		}
 		changed := false
 		for _, fam := range r.Families {
 			gcRule := rules[fam.Name]
